@@ -27,7 +27,8 @@ ASSUMPTIONS = [
     'deterministic sample of cases (disagreement -> inconclusive)',
     'a one-in-2^128 coincidence (corrupted signature still verifies) is '
     'ignored',
-    'no plugins installed',
+    'no plugins installed, except in the runs that register one rewriting '
+    'signature extension for the process (sign in one run, check in another)',
 ]
 NSH = 16
 
@@ -289,6 +290,58 @@ def judge_get_message(ctx, f, presence, fields):
         ctx.mark_nontrivial(dg(('gm', f, presence)))
 
 
+def judge_under_extension(ctx, case, seed, pk, fields, f, allowed):
+    import tapescript
+    ctx.count('runs_under_registered_extension')
+    rew = dict(fields)
+    env.rewriting_extension(None, None, rew)
+    msg = sigmsg.message(rew, f)
+    case = dict(case, kind='sign-ext', allowed=allowed)
+    tapescript.add_signature_extension(env.rewriting_extension)
+    try:
+        ctx.evaluated()
+        st, exc = run(isa.op('GET_MESSAGE') + bytes([f]), dict(fields))
+        if exc is not None or st != [msg]:
+            ctx.violation('extension-message-wrong', 'GET_MESSAGE under a '
+                          'registered extension is not the message over the '
+                          'once-rewritten fields', case, msg.hex(),
+                          repr(exc)[:100] if exc else [x.hex() for x in st])
+            return
+        st, exc = run(isa.push1(seed) + isa.op('SIGN') + bytes([f]),
+                      dict(fields))
+        if exc is not None or len(st) != 1 or not sigmsg.valid_fast(
+                pk, msg, st[0][:64]):
+            ctx.violation('extension-sign-wrong', 'SIGN under a registered '
+                          'extension does not sign the once-rewritten '
+                          'message', case, 'valid signature',
+                          repr(exc)[:100] if exc else [x.hex() for x in st])
+            return
+        sig = st[0]
+        for name, tail, want in (
+                ('CHECK_SIG', isa.op('CHECK_SIG') + bytes([allowed]),
+                 [b'\xff']),
+                ('CHECK_SIG_VERIFY', isa.op('CHECK_SIG_VERIFY')
+                 + bytes([allowed]) + isa.op('TRUE'), [b'\xff']),
+                ('CHECK_MULTISIG', isa.op('CHECK_MULTISIG')
+                 + bytes([allowed, 1, 1]), [b'\xff']),
+                ('CHECK_MULTISIG_VERIFY', isa.op('CHECK_MULTISIG_VERIFY')
+                 + bytes([allowed, 1, 1]) + isa.op('TRUE'), [b'\xff'])):
+            ctx.evaluated()
+            st, exc = run(isa.push1(sig) + isa.push1(pk) + tail, dict(fields))
+            if exc is not None or st != want:
+                ctx.violation('extension-check-differs', f'{name} under a '
+                              'registered extension rejects the signature '
+                              'SIGN made under the same extension over the '
+                              'same fields (another run)',
+                              dict(case, checker=name), 'ff',
+                              repr(exc)[:100] if exc else
+                              [x.hex() for x in st])
+                return
+        ctx.mark_nontrivial(dg(case))
+    finally:
+        tapescript.reset_signature_extensions()
+
+
 def judge_sign(ctx, rng, f, presence, j):
     fields = mk_fields(rng, presence)
     seed = bytes(rng.getrandbits(8) for _ in range(32))
@@ -319,6 +372,12 @@ def judge_sign(ctx, rng, f, presence, j):
                       'f subset of a does not yield true',
                       dict(case, allowed=allowed), 'ff',
                       repr(exc)[:100] if exc else [x.hex() for x in st])
+    # the same instructions in a process whose embedder registered a
+    # signature extension that rewrites sigfield1 (once per signature-related
+    # instruction): every one of them works on the SAME rewritten message, so
+    # a signature made in one run checks in another, with either checker
+    if j % 4 == 1:
+        judge_under_extension(ctx, case, seed, pk, fields, f, allowed)
     # wrong seed length -> error
     if j % 7 == 0:
         st, exc = run(isa.push1(seed[:31]) + isa.op('SIGN') + bytes([f]),
@@ -533,6 +592,10 @@ def replay(case, ctx):
             if exc is not None or st != [b'\xff']:
                 ctx.violation('sign-then-check-fails', 'sign-then-check',
                               case)
+    elif k == 'sign-ext':
+        judge_under_extension(ctx, case, case['seed'],
+                              sigmsg.pubkey(case['seed']), case['fields'],
+                              case['f'], case['allowed'])
     elif k == 'sequence':
         ctx.evaluated()
         st, exc = run(case['prog'], dict(case['fields']))
